@@ -11,8 +11,8 @@ import (
 	"time"
 
 	"verif/harness/internal/pand"
-	si "verif/harness/internal/sceninterp"
 	"verif/harness/internal/scengen"
+	si "verif/harness/internal/sceninterp"
 	"verif/harness/internal/target"
 	"verif/harness/internal/vf"
 
